@@ -38,6 +38,9 @@ func c15Gen(tier string, seed int64) []fw.Case {
 	for i := 0; i < 4; i++ {
 		cs = append(cs, fw.Mk(fmt.Sprintf("queued-preset-id-%d", i), c15Params{Mode: "retryid", N: n}))
 	}
+	for i := 0; i < 2; i++ {
+		cs = append(cs, fw.Mk(fmt.Sprintf("retransmission-meets-fresh-request-%d", i), c15Params{Mode: "meet", N: scale(tier, 3, 60)}))
+	}
 	cs = append(cs, fw.Mk("laggard-full-cycle", c15Params{Mode: "laggard"}))
 	return cs
 }
@@ -293,6 +296,36 @@ func c15Run(c fw.Case, env *fw.Env) fw.Result {
 				r.Sample = map[string]interface{}{"mode": "waves", "start_counter": start, "callers": callers, "requests": reqs, "max_outstanding": maxOut, "crossed_wraparound": wrap}
 			}
 		}
+	case "meet":
+		// A request interrupted on one connection is retransmitted (same identifier) through its retry handle on the
+		// next connection, where a fresh request is outstanding. Identifiers start at a random point per connection,
+		// so the two meet with probability 1/65535 per trial; meeting in 3 of 4 trials cannot be chance.
+		for round := 0; round < p.N; round++ {
+			meets, trials := 0, 0
+			var last string
+			for t := 0; t < 4; t++ {
+				met, d, ok := c15Meet()
+				if !ok {
+					continue
+				}
+				trials++
+				if met {
+					meets++
+					last = d
+				}
+			}
+			if trials < 4 {
+				r.Counters["inconclusive_rounds"]++
+				continue
+			}
+			if meets >= 3 {
+				return fail("id-reuse", "in %d of 4 trials the retransmission of a request from the previous connection and a fresh request outstanding on the new connection carried the same identifier (%s): identifiers do not start at independent points on successive connections", meets, last)
+			}
+			r.Evals++
+			r.Counters["retransmission_meets_fresh_request_trials"] += trials
+			r.NT = append(r.NT, fw.Hash("meet", c.Idx, round))
+		}
+		r.Sample = map[string]interface{}{"mode": "retransmission from the previous connection vs fresh request on the next", "rounds": p.N}
 	case "retryid":
 		// a QoS>0 message with a caller-set identifier queued behind a pending retry must keep its identifier
 		for round := 0; round < p.N; round++ {
@@ -485,4 +518,53 @@ func init() {
 		Gen:         c15Gen,
 		Run:         c15Run,
 	})
+}
+
+// c15Meet: one trial. Returns whether the retransmitted request and the fresh one carried the same identifier.
+func c15Meet() (met bool, detail string, ok bool) {
+	tr := memnet.NewTrace()
+	peer := &scen.Script{Tr: tr, AutoConnack: true}
+	ctx, cancel := context.WithTimeout(context.Background(), scen.Watchdog)
+	defer cancel()
+	cliA, connA := scen.NewBase(tr, peer)
+	if err := scen.ConnectBase(cliA); err != nil {
+		return false, "", false
+	}
+	res := make(chan error, 1)
+	go func() { res <- cliA.Publish(ctx, &mqtt.Message{Topic: "c15/old", QoS: mqtt.QoS1, Payload: []byte("o")}) }()
+	in, seen := peer.WaitIn(scen.Watchdog, 1, func(p *mqttref.Packet) bool { return p.Type == mqttref.PUBLISH && p.Topic == "c15/old" })
+	if !seen {
+		return false, "", false
+	}
+	oldID := in[0].P.ID
+	connA.PeerClose("interrupt")
+	var herr error
+	select {
+	case herr = <-res:
+	case <-time.After(scen.Watchdog):
+		return false, "", false
+	}
+	rh, isRetry := herr.(mqtt.ErrorWithRetry)
+	if !isRetry {
+		return false, "", false
+	}
+	cliB, _ := scen.NewBase(tr, peer)
+	defer cliB.Close()
+	if err := scen.ConnectBase(cliB); err != nil {
+		return false, "", false
+	}
+	go cliB.Publish(ctx, &mqtt.Message{Topic: "c15/fresh", QoS: mqtt.QoS1, Payload: []byte("f")})
+	fin, seen := peer.WaitIn(scen.Watchdog, 1, func(p *mqttref.Packet) bool { return p.Type == mqttref.PUBLISH && p.Topic == "c15/fresh" })
+	if !seen {
+		return false, "", false
+	}
+	go rh.Retry(ctx, cliB)
+	rin, seen := peer.WaitIn(scen.Watchdog, 2, func(p *mqttref.Packet) bool { return p.Type == mqttref.PUBLISH && p.Topic == "c15/old" })
+	if !seen {
+		return false, "", false
+	}
+	if rin[1].P.ID != oldID {
+		return false, "", true // C12's business
+	}
+	return fin[0].P.ID == oldID, fmt.Sprintf("identifier %d", oldID), true
 }
